@@ -119,6 +119,29 @@ Proof.
 Qed.
 Print Assumptions Lorem_paragraph_words.
 
+(* the same text as a list of WORDS: the join, by single blanks, of EXACTLY word_count tokens, each a vocabulary
+   entry w -- as it is or capitalised -- followed by an optional comma and an optional sentence end:
+     token_ok voc tok := exists w base d1 d2, In w voc /\ (base = w \/ base = cap w) /\ (d1 = "" \/ d1 = ",") /\
+                         (d2 = "" \/ d2 = one character of lorem_sentence_ends) /\ tok = base ++ d1 ++ d2 *)
+Theorem Lorem_paragraph_exact_words : forall db wc common t,
+  db_ok db = true -> is_paragraph db wc common t ->
+  exists tokens, t = join [c_space] tokens /\ zlen tokens = wc /\ Forall (token_ok (db_entries db)) tokens.
+Proof. exact paragraph_tokens. Qed.
+Print Assumptions Lorem_paragraph_exact_words.
+
+(* for a vocabulary without blanks inside its entries no token contains a blank: the tokens are the maximal
+   blank-free runs of the text (the words a reader counts).  latin and spanish are such vocabularies; russian has
+   entries of two words ("в стране"), there the count is the count of ENTRIES (COMPLETE sweep of the tables) *)
+Theorem Lorem_words_are_blank_free_runs : forall db tok,
+  blank_free db = true -> token_ok (db_entries db) tok -> ~ In c_space tok.
+Proof. exact token_no_blank. Qed.
+Print Assumptions Lorem_words_are_blank_free_runs.
+
+Example Lorem_blank_free_tables :
+  option_map blank_free (lorem_db s_latin) = Some true /\ option_map blank_free (lorem_db [115;112]%N) = Some true /\
+  option_map blank_free (lorem_db [114;117]%N) = Some false.
+Proof. vm_compute. repeat split. Qed.
+
 (* the header: 1 <= min <= max, for every header *)
 Theorem Lorem_header_range : forall minw maxw, 1 <= lorem_min minw <= lorem_max minw maxw.
 Proof. intros. split; [apply lorem_min_pos|apply lorem_min_max]. Qed.
